@@ -155,7 +155,8 @@ func waitAskCase(c WaitCase, st *ev.Stats) error {
 		tx := findMut(false)
 		did := tx != nil && tx.Accepted && activeAll(tx.TimeAfter)
 		// a follow-up (auto) transition may change the states again before the helper looks
-		if o.b != did && o.b != (tx != nil && tx.Accepted && activeAll(m.Time(nil))) {
+		// (incl. activating them, which makes "became active" true whatever happened to the helper's own mutation)
+		if o.b != did && o.b != activeAll(m.Time(nil)) {
 			return fmt.Errorf("AddSync(%v) busy=%v returned %v but its mutation %s", states, c.Busy, o.b, describe(tx))
 		}
 	case "RemoveSync":
@@ -172,7 +173,7 @@ func waitAskCase(c WaitCase, st *ev.Stats) error {
 		}
 		did := tx.Accepted && activeNone(tx.TimeAfter)
 		// a follow-up (auto) transition may re-activate a state before the helper looks
-		if o.b != did && o.b != (tx.Accepted && activeNone(m.Time(nil))) {
+		if o.b != did && o.b != activeNone(m.Time(nil)) {
 			return fmt.Errorf("RemoveSync(%v) busy=%v returned %v but its mutation %s", states, c.Busy, o.b, describe(tx))
 		}
 	case "CantAdd", "CantRemove":
